@@ -860,6 +860,17 @@ func (env *SpecEnv) evalCall(n *Node) Val {
 		x := env.eval(args[0])
 		ex.sc.fun("box_str", []string{sStr}, sInt)
 		return mathInt(app("box_str", x.L[0]))
+	case "bitor32", "bitand32":
+		a := env.eval(args[0])
+		b := env.eval(args[1])
+		op := "or"
+		if fn.Name == "bitand32" {
+			op = "and"
+		}
+		return mathInt(app(ex.bitUF(op, 32), a.L[0], b.L[0]))
+	case "pow2":
+		k := env.eval(args[0])
+		return mathInt(app(ex.pow2UF(), k.L[0]))
 	case "splitN":
 		ex.splitFuns()
 		return mathInt(app("split_n", env.eval(args[0]).L[0], env.eval(args[1]).L[0]))
